@@ -154,10 +154,10 @@ Definition stmt_site (s : stmt) : option (site * vexpr) :=
       Some ((SCall, "match ( $0 ) . as_slice ( ) { [ $1 ] => { $2 } _ => { $3 } }",
              [pp_vexpr e; sep_by (comma SCall) (map pp_part parts); flat_map pp_stmt body; pp_push p], 0), e)
   | SRegex sp e pattern p =>
-      Some ((sp, "{ use :: assert_struct :: Like ; let __assert_struct_re = :: assert_struct :: __macro_support :: Regex :: new ( $0 ) . expect ( concat ! ( $1 , $0 ) ) ; if ! ( $2 ) . like ( & __assert_struct_re ) { $3 } }",
+      Some ((sp, "{ use :: assert_struct :: Like as _ ; let __assert_struct_re = :: assert_struct :: __macro_support :: Regex :: new ( $0 ) . expect ( concat ! ( $1 , $0 ) ) ; if ! ( $2 ) . like ( & __assert_struct_re ) { $3 } }",
              [str_lit pattern SCall; str_lit "Invalid regex pattern: " sp; pp_vexpr e; pp_push p], 2), e)
   | SLike sp e x p =>
-      Some ((sp, "{ use :: assert_struct :: Like ; if ! ( $0 ) . like ( & $1 ) { $2 } }", [pp_vexpr e; u_toks x; pp_push p], 0), e)
+      Some ((sp, "{ use :: assert_struct :: Like as _ ; if ! ( $0 ) . like ( & $1 ) { $2 } }", [pp_vexpr e; u_toks x; pp_push p], 0), e)
   | SClosure sp e c p =>
       Some ((sp, "{ if ! :: assert_struct :: __macro_support :: check_closure_condition ( $0 , $1 ) { $2 } }",
              [pp_vexpr e; u_toks c; pp_push p], 0), e)
